@@ -100,6 +100,8 @@ def single_clauses():
                     c = {"kind": "cmp", "state": ".q.s", "op": op, "neg": neg, "tol": None,
                          "goal": {"path": ".q.g"} if indirect else g}
                     out.append((c, {".q.s": s, ".q.g": g}))
+                    if not indirect:      # the same goal written with single quotes
+                        out.append((dict(c, squote=True), {".q.s": s, ".q.g": g}))
     # equality between different kinds (never ordered): string vs number, with and without tolerance
     for s, g in (("a", 1), (1, "a"), (True, True), (True, False), (False, False), ("", 0)):
         for op in ("==", "!="):
